@@ -11,6 +11,9 @@ modelled (the model is exact); see harness/props/c04.py for the tolerance rule o
 -/
 import FairModel.Model.Proto
 import FairModel.Generated.ThresholdTables
+import FairModel.Generated.TradeoffSrc
+import FairModel.Generated.ThresholderSrc
+import FairModel.Generated.ThresholdFitSrc
 
 namespace Threshold
 open ThresholdGen
@@ -27,18 +30,19 @@ inductive Thr where
   | ninf : Thr
 deriving Repr, DecidableEq
 
-/-- `s > thr` -/
+/-- `s > thr`: for a finite threshold the comparison LIFTED from `ThresholdOperation.__call__` (operator ">");
+    the ±inf cases are IEEE comparisons with an infinity -/
 def Thr.below (thr : Thr) (s : Rat) : Bool :=
   match thr with
   | .pinf => false
-  | .fin t => decide (t < s)
+  | .fin t => ThresholderSrc.opGt s t
   | .ninf => true
 
-/-- `s < thr` -/
+/-- `s < thr` (operator "<", lifted) -/
 def Thr.above (thr : Thr) (s : Rat) : Bool :=
   match thr with
   | .pinf => true
-  | .fin t => decide (s < t)
+  | .fin t => ThresholderSrc.opLt s t
   | .ninf => false
 
 /-- `ThresholdOperation(operator, threshold)`; `gt = true` is the operator ">" -/
@@ -61,10 +65,15 @@ deriving Repr, DecidableEq
 def nPos (rows : List Row) : Nat := rows.countP (fun r => r.label)
 def nNeg (rows : List Row) : Nat := rows.countP (fun r => !r.label)
 
+/-- `r` goes in front of `y` in `sort_values(by=score, ascending=False)`; the direction is the one LIFTED from
+    `_get_scores_labels_and_counts` (`TradeoffSrc.scoreSortDescending`) -/
+def scoreBefore (y r : Row) : Bool :=
+  if TradeoffSrc.scoreSortDescending then decide (y.score < r.score) else decide (r.score < y.score)
+
 /-- `sort_values(by=score, ascending=False)`; the order inside a tie block does not matter for the sweep -/
 def insertDesc (r : Row) : List Row → List Row
   | [] => [r]
-  | y :: ys => if y.score < r.score then r :: y :: ys else y :: insertDesc r ys
+  | y :: ys => if scoreBefore y r then r :: y :: ys else y :: insertDesc r ys
 
 def sortDesc (rows : List Row) : List Row := rows.foldr insertDesc []
 
@@ -72,20 +81,26 @@ def sortDesc (rows : List Row) : List Row := rows.foldr insertDesc []
 `sweepAux` walks the rows sorted by decreasing score; `c0`/`c1` are `count[0]`/`count[1]`.  A point is
 emitted at the end of every block of equal scores, with the threshold halfway to the next score
 (`-inf` after the last block, because of the `-np.inf` sentinel). -/
+def thrInitial : Thr := if TradeoffSrc.initialThresholdPosInf then .pinf else .ninf
+def thrSentinel : Thr := if TradeoffSrc.sentinelNegInf then .ninf else .pinf
+
+/-- the threshold after a block of tied scores `t`, next score `s`: `TradeoffSrc.midThreshold` is the expression
+    lifted from the source (`(threshold + scores[i]) / 2`); the last block meets the sentinel appended to the scores
+    (`-np.inf`, lifted), the special initial point uses `thrInitial` (`np.inf`, lifted) -/
 def sweepAux : List Row → Nat → Nat → List (Thr × Nat × Nat)
   | [], _, _ => []
   | r :: rest, c0, c1 =>
     let c0' := if r.label then c0 else c0 + 1
     let c1' := if r.label then c1 + 1 else c1
     match rest with
-    | [] => [(.ninf, c0', c1')]
+    | [] => [(thrSentinel, c0', c1')]
     | r' :: _ =>
       if r'.score = r.score then sweepAux rest c0' c1'
-      else (.fin ((r.score + r'.score) / 2), c0', c1') :: sweepAux rest c0' c1'
+      else (.fin (TradeoffSrc.midThreshold r.score r'.score), c0', c1') :: sweepAux rest c0' c1'
 
 /-- all sweep steps, starting with the special initial point (threshold `inf`, nothing counted) -/
 def sweepSteps (rows : List Row) : List (Thr × Nat × Nat) :=
-  (.pinf, 0, 0) :: sweepAux (sortDesc rows) 0 0
+  (thrInitial, 0, 0) :: sweepAux (sortDesc rows) 0 0
 
 def stepCounts (nneg npos : Nat) (c0 c1 : Nat) (actual : Bool) : CM :=
   if actual then actualCounts c0 c1 nneg npos else flippedCounts c0 c1 nneg npos
@@ -102,7 +117,19 @@ def rawPoints (flip : Bool) (xm ym : Metric) (rows : List Row) : List Pt :=
   (sweepSteps rows).flatMap (stepPoints (operations flip) xm ym (nNeg rows) (nPos rows))
 
 /-! ### `.sort_values(by=["x", "y"])` (stable) -/
-def lexLt (a b : Pt) : Bool := decide (a.x < b.x) || (decide (a.x = b.x) && decide (a.y < b.y))
+def colVal (c : TradeoffSrc.Col) (p : Pt) : Rat :=
+  match c with
+  | .x => p.x
+  | .y => p.y
+
+def lexLtKeys : List TradeoffSrc.Col → Pt → Pt → Bool
+  | [], _, _ => false
+  | k :: ks, a, b => decide (colVal k a < colVal k b) || (decide (colVal k a = colVal k b) && lexLtKeys ks a b)
+
+/-- strict order of `.sort_values(by=<keys>)`; keys and direction are LIFTED (`TradeoffSrc.pointSortKeys`) -/
+def lexLt (a b : Pt) : Bool :=
+  if TradeoffSrc.pointSortAscending then lexLtKeys TradeoffSrc.pointSortKeys a b
+  else lexLtKeys TradeoffSrc.pointSortKeys b a
 
 def insertLex (p : Pt) : List Pt → List Pt
   | [] => [p]
@@ -115,8 +142,8 @@ def tradeoffPoints (flip : Bool) (xm ym : Metric) (rows : List Row) : Option (Li
   if nPos rows = 0 ∨ nNeg rows = 0 then none else some (sortLex (rawPoints flip xm ym rows))
 
 /-! ### `_filter_points_to_get_convex_hull` (Andrew's monotone chain); the stack is kept top first -/
-def dropTest (r0 r1 r2 : Pt) : Bool :=
-  decide ((r1.y - r0.y) * (r2.x - r0.x) ≤ (r2.y - r0.y) * (r1.x - r0.x))
+/-- the turn test is the expression LIFTED from the source (`TradeoffSrc.hullDrop`) -/
+def dropTest (r0 r1 r2 : Pt) : Bool := TradeoffSrc.hullDrop r0.x r0.y r1.x r1.y r2.x r2.y
 
 def popWhile (r2 : Pt) : List Pt → List Pt
   | r1 :: r0 :: rest => if dropTest r0 r1 r2 then popWhile r2 (r0 :: rest) else r1 :: r0 :: rest
@@ -139,11 +166,19 @@ def countLE (xs : List Rat) (g : Rat) : Nat := (xs.takeWhile (fun v => decide (v
 
 /-- index for grid position `i` (value `g`): `searchsorted - 1`, then for `i ≥ 1` one step to the left when the
     grid value equals the vertex.  `none` = a negative index (numpy would wrap around). -/
+def countLT (xs : List Rat) (g : Rat) : Nat := (xs.takeWhile (fun v => decide (v < g))).length
+
+/-- `np.searchsorted(xs, g, side=<lifted>)` -/
+def searchIdx (xs : List Rat) (g : Rat) : Nat :=
+  if TradeoffSrc.searchSideRight then countLE xs g else countLT xs g
+
 def interpIndex (xs : List Rat) (i : Nat) (g : Rat) : Option Nat :=
-  let c := countLE xs g
-  if c = 0 then none else
-    let k := c - 1
-    if i ≥ 1 ∧ xs[k]? = some g then (if k = 0 then none else some (k - 1)) else some k
+  let c := searchIdx xs g
+  if c < TradeoffSrc.searchMinus then none else
+    let k := c - TradeoffSrc.searchMinus
+    if i ≥ TradeoffSrc.corrStart ∧ xs[k]? = some g then
+      (if k < TradeoffSrc.corrStep then none else some (k - TradeoffSrc.corrStep))
+    else some k
 
 structure Interp where
   x : Rat
@@ -160,15 +195,19 @@ def interpolateAt (hull : List Pt) (i : Nat) (g : Rat) : Option Interp :=
   | some k =>
     match hull[k]?, hull[k + 1]? with
     | some a, some b =>
-      if b.x - a.x = 0 then none
+      -- a zero denominator is numpy's nan; weights, y and the vertex of each operation are the LIFTED expressions
+      if TradeoffSrc.interpP0Den a.x b.x g = 0 then none
       else
-        let p0 := (b.x - g) / (b.x - a.x)
-        let p1 := 1 - p0
-        some { x := g, y := p0 * a.y + p1 * b.y, p0 := p0, op0 := a.op, p1 := p1, op1 := b.op }
+        some { x := g, y := TradeoffSrc.interpY a.x b.x a.y b.y g,
+               p0 := TradeoffSrc.interpP0 a.x b.x g, op0 := if TradeoffSrc.op0FromNext then b.op else a.op,
+               p1 := TradeoffSrc.interpP1 a.x b.x g, op1 := if TradeoffSrc.op1FromNext then b.op else a.op }
     | _, _ => none
 
-/-- `np.linspace(0, 1, N + 1)[i]` -/
-def gridVal (N i : Nat) : Rat := (i : Rat) / (N : Rat)
+/-- `np.linspace(lo, hi, N + k)[i] = lo + i * (hi - lo) / (N + k - 1)`; `lo`, `hi`, `k` are LIFTED from the source
+    (`np.linspace(0, 1, self.grid_size + 1)`, `Generated/ThresholdFitSrc.lean`) -/
+def gridVal (N i : Nat) : Rat :=
+  ThresholdFitSrc.gridLo + (i : Rat) * (ThresholdFitSrc.gridHi - ThresholdFitSrc.gridLo) /
+    (((N + ThresholdFitSrc.gridExtra - 1 : Nat)) : Rat)
 
 def allSome {α} : List (Option α) → Option (List α)
   | [] => some []
@@ -208,9 +247,12 @@ structure Fit where
   rules : List Rule
 deriving Repr
 
-/-- frequency-weighted sum of the groups' interpolated objective -/
+/-- one entry of `overall_tradeoff_curve`: starting from the lifted start value, every group adds
+    `p_sensitive_feature_value * y` in group order — `groupFreq`, `objAccum`, `objInit` are the LIFTED expressions -/
 def objSimple (groups : List (List Row)) (is : List Interp) : Rat :=
-  (List.zipWith (fun (g : List Row) (r : Interp) => ((g.length : Rat) / (totalRows groups : Rat)) * r.y) groups is).sum
+  (List.zipWith (fun (g : List Row) (r : Interp) =>
+      (ThresholdFitSrc.groupFreq (g.length : Rat) (totalRows groups : Rat), r.y)) groups is).foldl
+    (fun acc py => ThresholdFitSrc.objAccum acc py.1 py.2) (ThresholdFitSrc.objInit 1)
 
 def curves (hulls : List (List Pt)) (N : Nat) : Option (List (List Interp)) :=
   allSome ((List.range (N + 1)).map (interpAll hulls N))
@@ -248,8 +290,10 @@ def totalNeg (groups : List (List Row)) : Nat := (groups.map nNeg).sum
 def objEO (obj : Metric) (groups : List (List Row)) (x y : Rat) : Rat :=
   obj.eval (eoCounts (totalNeg groups) (totalPos groups) x y)
 
+/-- the diagonal test, the value on the diagonal and the quotient are LIFTED (`Generated/ThresholdFitSrc.lean`) -/
 def pIgnore (r : Interp) (yBest : Rat) : Rat :=
-  if r.y = r.x then 0 else (r.y - yBest) / (r.y - r.x)
+  if ThresholdFitSrc.pIgnoreOnDiagonal r.x r.y then ThresholdFitSrc.pIgnoreDiagValue
+  else ThresholdFitSrc.pIgnoreValue r.x r.y yBest
 
 def eoRule (xBest yBest : Rat) (r : Interp) : Rule :=
   ⟨r.p0, r.op0, r.p1, r.op1, some (pIgnore r yBest, xBest)⟩
@@ -276,12 +320,13 @@ def fitEO (flip : Bool) (obj : Metric) (N : Nat) (groups : List (List Row)) (for
 /-! ### `InterpolatedThresholder._pmf_predict` and expected confusion counts -/
 def ind (b : Bool) : Rat := if b then 1 else 0
 
-/-- probability of predicting 1 for a row with score `s` -/
+/-- probability of predicting 1 for a row with score `s`: the interpolation and the `p_ignore` mixing are the
+    expressions LIFTED from `InterpolatedThresholder._pmf_predict` (`Generated/ThresholderSrc.lean`) -/
 def ruleProb (r : Rule) (s : Rat) : Rat :=
-  let base := r.p0 * ind (r.op0.apply s) + r.p1 * ind (r.op1.apply s)
+  let base := ThresholderSrc.interp r.p0 (ind (r.op0.apply s)) r.p1 (ind (r.op1.apply s))
   match r.ign with
   | none => base
-  | some (pi, c) => pi * c + (1 - pi) * base
+  | some (pi, c) => ThresholderSrc.withIgnore pi c base
 
 def sumBy (f : Row → Rat) (rows : List Row) : Rat := (rows.map f).sum
 
